@@ -113,14 +113,19 @@ pub trait ExWrite {
     fn flush(&mut self) -> (r: std::io::Result<()>);
 }
 
-/// ghost receive log (N15 ghost field; erased at run time): .0 = every byte a read ever delivered into the receive
-/// buffer, .1 = "a read delivered 0 bytes into a non-empty window" (end of stream observed)
-pub struct GhostLog(pub Ghost<Seq<u8>>, pub Ghost<bool>);
+/// ghost connection log (N15 ghost field; erased at run time): .0 = every byte a read ever delivered into the receive
+/// buffer, .1 = "the last read of the most recent receive delivered 0 bytes into a non-empty window" (end of stream
+/// observed), .2 = every byte a successful write_all handed to the transport
+pub struct GhostLog(pub Ghost<Seq<u8>>, pub Ghost<bool>, pub Ghost<Seq<u8>>);
 impl std::fmt::Debug for GhostLog { #[verifier::external_body] fn fmt(&self, f: &mut std::fmt::Formatter<'_>) -> std::fmt::Result { Ok(()) } }
 impl GhostLog {
-    pub fn empty() -> (r: GhostLog) ensures r.0@ == Seq::<u8>::empty(), r.1@ == false { GhostLog(Ghost(Seq::empty()), Ghost(false)) }
-    pub fn of(rx: Ghost<Seq<u8>>, eof: Ghost<bool>) -> (r: GhostLog) ensures r.0@ == rx@, r.1@ == eof@ { GhostLog(rx, eof) }
+    pub fn empty() -> (r: GhostLog) ensures r.0@ == Seq::<u8>::empty(), r.1@ == false, r.2@ == Seq::<u8>::empty() { GhostLog(Ghost(Seq::empty()), Ghost(false), Ghost(Seq::empty())) }
+    pub fn of(rx: Ghost<Seq<u8>>, eof: Ghost<bool>) -> (r: GhostLog) ensures r.0@ == rx@, r.1@ == eof@, r.2@ == Seq::<u8>::empty() { GhostLog(rx, eof, Ghost(Seq::empty())) }
 }
+/// N10 wrapper for the provided method `io::Write::write_all`
+#[verifier::external_body]
+pub fn vx_write_all<W: std::io::Write>(w: &mut W, buf: &[u8]) -> (r: std::io::Result<()>)
+{ w.write_all(buf) }
 
 pub broadcast proof fn lemma_sub_sub(s: Seq<u8>, a: int, b: int, c: int, d: int)
     requires 0 <= a <= b <= s.len(), 0 <= c <= d <= b - a
@@ -199,6 +204,13 @@ pub fn vx_ci_find<'a, P: FnMut(&(usize, char)) -> bool>(it: std::str::CharIndice
             None => forall|j: int| 0 <= j < ci_seq(&it).len() ==> call_ensures(p, (&#[trigger] ci_seq(&it)[j],), false),
         }
 { let mut it = it; it.find(p) }
+
+/// N10 wrapper for the provided method `Iterator::sum` (value only used as a capacity hint; the sum of the lengths of
+/// buffers that exist in memory at the same time cannot overflow usize)
+#[verifier::external_body]
+pub fn vx_sum_usize<I: Iterator<Item = usize>>(it: I) -> (r: usize)
+    ensures (r as int) < 0x4000_0000_0000_0000
+{ it.sum::<usize>() }
 
 // ------------------------------------------------------------------------------------------ bytes::Bytes / conversions
 #[verifier::external_type_specification]
